@@ -56,6 +56,10 @@ type c12Target struct {
 		S string
 		R []gojson.RawMessage
 	}
+	// slices of slices: the outer decoder keeps scratch element slots between calls
+	LL [][]int
+	LS [][]string
+	LM []map[string][]int
 	// ,string members: the decoder runs a second decoder over the string's content
 	QS string        `json:"qs,string"`
 	QN gojson.Number `json:"qn,string"`
@@ -228,7 +232,7 @@ func burst(r *rand.Rand, n int) {
 			gojson.Unmarshal([]byte(`{"a":"`+s+`","b":[1,2,{"c":"`+s[:len(s)/2]+`"}]}`), &v)
 		case 2:
 			var t c12Target
-			gojson.Unmarshal([]byte(`{"S":"`+s+`","B":"QUJD","R":{"x":"`+s+`"},"UJ":["`+s+`"],"UT":"t"}`), &t)
+			gojson.Unmarshal([]byte(`{"S":"`+s+`","B":"QUJD","R":{"x":"`+s+`"},"UJ":["`+s+`"],"UT":"t","LL":[[9,9],[10,11,12]],"LS":[["b"],["u","r"]],"LM":[{"k":[0]},{"k":[0,0,0]}]}`), &t)
 		case 3:
 			gojson.MarshalIndent([]string{s, s}, "", " ")
 		default:
@@ -257,6 +261,7 @@ func c12Doc(r *rand.Rand) []byte {
 		`"M":{` + str() + `:` + str() + `,"k2":` + str() + `}`, `"Sl":[` + str() + `,` + str() + `]`, `"P":` + str(), `"UJ":` + raw(), `"UT":` + str(),
 		`"UJs":[` + raw() + `,` + raw() + `]`, `"MT":{"a":` + str() + `,"b":` + str() + `}`, `"SR":` + raw(), `"Arr":[` + str() + `,` + str() + `]`,
 		`"In":{"S":` + str() + `,"R":[` + raw() + `,` + raw() + `]}`,
+		fmt.Sprintf(`"LL":[[%d,%d,3,4],[5,6,7,8],[]]`, r.Intn(100), r.Intn(100)), `"LS":[[` + str() + `,` + str() + `],[` + str() + `]]`, fmt.Sprintf(`"LM":[{"k":[%d,2,3]},{"k":[4,5],"l":[6]}]`, r.Intn(100)),
 		`"qs":` + quote(str()), `"qn":"` + string(gen.NumLit(r)) + `"`, `"qi":"` + fmt.Sprint(r.Int63()-r.Int63()) + `"`, `"qp":` + quote(str()),
 	}
 	r.Shuffle(len(parts), func(i, j int) { parts[i], parts[j] = parts[j], parts[i] })
